@@ -12,6 +12,9 @@ def run(prop, tier, seed, replay=None):
                      "message size, plus 16 MiB before the metadata is known (index-sized tables, capped) and the sanctioned metadata buffer (<= 128 MiB) "
                      "for messages that announce a metadata size",
                      "torrent of 4 pieces; a second well-behaved peer receives broadcasts"]
+    if replay and json.load(open(replay))["scenario"].get("binding") == "liveframe":
+        live_frames(v, prop, tier, seed, [json.load(open(replay))["scenario"]])
+        return v.finish()
     if replay and json.load(open(replay))["scenario"].get("binding") == "metadata":
         import p_metadata
         p_metadata.crash_probe(v, prop, tier, seed, [json.load(open(replay))["scenario"]])
@@ -60,6 +63,9 @@ def run(prop, tier, seed, replay=None):
         if o.get("note") and not o.get("violations"):
             raise Internal("scenario %s: %s" % (sc["id"], o["note"][:500]))
         for vi in o.get("violations") or []:
+            if vi["key"] == "vote-stuffing":
+                v.warn("scenario %s: C12 %s: %s" % (sc["id"], vi["key"], vi["what"]))    # C12's business (metadata_probe)
+                continue
             v.violation(vi["key"], vi["what"] + " (scenario %s step %d)" % (sc["id"], vi["step"]), sc)
         for nc in o.get("nonconf") or []:
             v.warn("nonconformance: scenario %s %s" % (sc["id"], nc))
@@ -85,10 +91,62 @@ def run(prop, tier, seed, replay=None):
         p_sched.run_replays(v, prop, sims)
         v.cov["traces_validated_against_impl"] += len(sims)
     if not replay:
+        # the same through a live peer (its own reader goroutine): well-framed extended messages whose bencoded payload is hostile -
+        # every body class of Framing.tla, incl. every known key with every unexpected value shape
+        live_frames(v, prop, tier, seed)
+    if not replay:
         # "... or in the torrent's processing of what the peer sent": the metadata assembly
         import p_metadata
         p_metadata.crash_probe(v, prop, tier, seed)
     return v.finish()
+
+
+def live_frames(v, prop, tier, seed, cases=None):
+    if cases is None:
+        r = run_tlc("MCFraming", "Framing_mc.cfg", workers=1, timeout=600)
+        require_ok(r, "Framing model checking (live frames)")
+        seen, cases = set(), []
+        for payload in r.lines("CASE"):
+            c = json.loads(payload)["in"]
+            if c["id"] != 20 or c["lh"] >= 0 or c["cut"] != "no" or c["sub"] not in (0, 1, 2):
+                continue
+            key = (c["sub"], c["body"])
+            if key in seen or c["body"] in ("hugestr", "deep"):     # (the dependency's pre-allocation is C04's known finding)
+                continue
+            seen.add(key)
+            cases.append({"kind": "liveframe", "sub": c["sub"], "body": c["body"], "binding": "liveframe"})
+        os.unlink(r.outfile)
+        if len(cases) < 100:
+            raise Internal("live frames: only %d cases" % len(cases))
+        for i, c in enumerate(cases):
+            c["id"] = 30000 + i
+    vh = vlib.build_harness()
+    wd = vlib.scratch("lfr-")
+    sf, rf = os.path.join(wd, "cases.ndjson"), os.path.join(wd, "res.ndjson")
+    with open(sf, "w") as f:
+        for c in cases:
+            f.write(json.dumps(c, separators=(",", ":")) + "\n")
+    out, err = vlib.run_harness(vh, ["c11x", "-in", sf, "-out", rf, "-parallel", "12", "-timeout", "60"], timeout=3600)
+    log(out.strip())
+    kept = 0
+    for line in open(rf):
+        res = json.loads(line)
+        c = cases[res["index"]]
+        if res.get("crash") or res.get("hang"):
+            st = res.get("stderr", "")
+            first = [x for x in st.splitlines() if x.startswith(("panic", "fatal", "runtime:"))][:2]
+            v.violation("live-peer-crash", "the process %s after a live peer received a well-framed extended message (sub-id %d) with payload class %s: %s"
+                        % ("hung" if res.get("hang") else "crashed", c["sub"], c["body"], first), c)
+            continue
+        o = res["out"]
+        if o.get("note"):
+            raise Internal("live frame case %s: %s" % (c["id"], o["note"]))
+        for vi in o.get("violations") or []:
+            v.violation(vi["key"], vi["what"], c)
+        kept += 1 if any(x.get("k") == "kept" for x in (o.get("observed") or [])) else 0
+    v.cov["live_frames"] = {"cases": len(cases), "peer_kept": kept,
+                            "rule": "every bencoded payload class of Framing.tla (sub-ids 0, 1, 2) sent well-framed to a real peer.Run over net.Pipe: the process survives, peer.Run returns"}
+    return len(cases)
 
 
 def metadata_probe(v, prop, tier, seed, scen=None):
@@ -138,6 +196,8 @@ def metadata_probe(v, prop, tier, seed, scen=None):
         for vi in o.get("violations") or []:
             if vi["key"].startswith(("writer-panic", "handler-panic")):
                 v.violation("peer-side-panic", vi["what"], sc)
+            elif vi["key"] == "vote-stuffing":
+                v.violation("vote-stuffing", vi["what"], sc)
     v.cov["peer_side_metadata"] = {"sequences": len(scen), "rule": "message sequences of PeerFsm.tla that contain an extended handshake or a ut_metadata message, "
                                    "metadata unknown, real peer and torrent handlers, written messages serialised; panics only"}
     return len(scen)
